@@ -2,7 +2,7 @@
    [value]. The OCaml driver only parses and prints values; the same [run_case] is evaluated by
    vm_compute in the thorough tier. *)
 From Coq Require Import String Ascii List ZArith NArith Bool DecimalString.
-From Bkl Require Import Model.Value Model.Merge Model.Str Model.Eval Model.Tools Model.Parser Model.Wrapper.
+From Bkl Require Import Model.Value Model.Merge Model.Str Model.Eval Model.Tools Model.Parser Model.Wrapper Model.Files.
 Import ListNotations.
 Local Open Scope string_scope.
 Local Open Scope list_scope.
@@ -86,6 +86,17 @@ Fixpoint dec_ops (l : list value) : option (list op) :=
   end.
 
 Definition bad_case : value := VList [VStr "badcase"].
+
+Definition dec_fs (v : value) : fsys :=
+  flat_map (fun e =>
+    match e with
+    | VList [VStr n; VList [VStr k; x]] =>
+        if String.eqb k "link" then [(n, FLink (str_of x))]
+        else [(n, FReg (match dec_res x with Ok (VList l) => Ok l | Ok _ => Err EOracle | Err e => Err e end))]
+    | _ => []
+    end) (list_of v).
+
+Definition opt_str (v : value) : option string := match v with VStr s => Some s | _ => None end.
 
 (* which oracle entry does evaluating [$encode: spec] on obj need next? (used by the harness to
    complete the tables with independently computed encodings) *)
@@ -174,6 +185,18 @@ Definition run_case (c : value) : value :=
         end
       else if String.eqb opn "encq" then
         match args with [t; obj; spec] => first_missing (oracles_of t) obj (flatten_spec spec) | _ => bad_case end
+      else if String.eqb opn "cli" then
+        (* [tables; fs; {f, o, P, inputs}] -> ok [format, documents] | err *)
+        match args with
+        | [t; fsv; VMap om] =>
+            let o := oracles_of t in
+            let opts := {| c_format := opt_str (lookup_or_null "f" om); c_output := opt_str (lookup_or_null "o" om);
+                           c_skip_parent := is_bool (lookup_or_null "P" om) true;
+                           c_inputs := map str_of (list_of (lookup_or_null "inputs" om)) |} in
+            enc_res (fun r => VList [VStr (fst r); VList (snd r)])
+                    (bkl_cli o (map str_of (list_of (lookup_or_null "fmts" (map_of t)))) (dec_fs fsv) opts)
+        | _ => bad_case
+        end
       else if String.eqb opn "wrap" then
         (* [table; args]: table maps an argument to ["file", fmt] or ["fail"]; answer: the plan *)
         match args with
